@@ -51,7 +51,16 @@ struct GenBuf : std::streambuf {
 	size_t produced = 0;
 	char one = 0;
 	int lineLeft = 0;
-	explicit GenBuf(uint64_t seed) : rng(seed) {}
+	// one 16-bit word per instance (the k-th one read, k drawn per instance) gets its top nibble populated in half of the
+	// instances: flag words keep fields up there (NBT method of the geometry data flags); spread thinly over all words the
+	// one that matters would hardly ever be hit, and large counts would dominate the cost
+	int nibbleAt = -1, shortsSeen = 0;
+	explicit GenBuf(uint64_t seed) : rng(seed) {
+		Rng pick(seed * 2862933555777941757ull + 3037000493ull);
+		if (pick.chance(0.6)) nibbleAt = int(pick.chance(0.6) ? pick.below(3) : pick.below(8));
+		nibbleValue = 1 + pick.below(15);
+	}
+	uint32_t nibbleValue = 0;
 
 	float genFloat() {
 		switch (rng.below(12)) {
@@ -106,7 +115,8 @@ struct GenBuf : std::streambuf {
 					// flag words keep fields in their upper bits (NBT method in the top nibble of the 16-bit geometry data flags,
 					// shader flags): now and then the top nibble is populated as well
 					if (tame) {}
-					else if (n == 2 && rng.chance(0.015)) v |= uint64_t(rng.below(16)) << 12;
+					else if (n == 2 && shortsSeen++ == nibbleAt) { v |= uint64_t(nibbleValue) << 12; if (const char* dg = getenv("NIFSIM_DEBUG_GEN")) { FILE* f = fopen(dg, "a"); if (f) { fprintf(f, "nibble word #%d = %llx\n", nibbleAt, (unsigned long long) v); fclose(f); } } }
+					else if (n == 2 && rng.chance(0.005)) v |= uint64_t(rng.below(16)) << 12;
 					else if (n == 4 && rng.chance(0.004)) v |= uint64_t(rng.below(16)) << 28;
 					// a block that has grown beyond a megabyte stops growing (a large count was drawn): further counts are zero
 					if (produced > (1u << 20)) v = 0;
